@@ -156,10 +156,40 @@ pub fn run(ctx: &Ctx) -> i32 {
         w.sample(|| cfg.to_json(input));
         w.check(common::case_size(input, cfg), || cfg.to_json(input), |st| eval(cfg, input, st));
     });
+    // the macro and FNC1 options hold whatever the order in which the builder's setters are called:
+    // all 24 orders give the codewords of the order judged above (list, modes, macros, FNC1)
+    {
+        let lists: Vec<Vec<usize>> = vec![ListMask::default_list().indices(), vec![gen::idx(44, 44)], vec![gen::idx(12, 26), gen::idx(20, 20)]];
+        let mut datas: Vec<Vec<u8>> = Vec::new();
+        for head in [gen::MACRO05, gen::MACRO06] {
+            for body in [&b""[..], b"ABC123", b"0104012345678901", &[0xE9, b'a']] {
+                let mut m = head.to_vec();
+                m.extend_from_slice(body);
+                m.extend_from_slice(gen::MACRO_TRAIL);
+                datas.push(m);
+            }
+        }
+        datas.push(b"[)>\x1e05\x1dABC".to_vec());
+        datas.push(b"0104012345678901".to_vec());
+        ctx.par(lists.len() as u64, |c, w| {
+            let o = &lists[c as usize];
+            w.label(|| format!("builder setter orders, list {}", c));
+            for mb in [ALL_MODES, common::NO_ASCII] {
+                for ma in [true, false] {
+                    for f in [false, true] {
+                        for dta in &datas {
+                            let desc = || json!({"kind": "builder", "order": o.iter().map(|i| crate::bridge::size_name(*i)).collect::<Vec<_>>(), "modes": mb, "macros": ma, "fnc1": f, "data": crate::explore::hex(dta)});
+                            w.check(o.len() as u64, desc, |st| super::c12::eval_builder_order(o, mb, ma, f, dta, st));
+                        }
+                    }
+                }
+            }
+        });
+    }
     let cov = json!({
         "evaluations": ctx.evaluations(),
         "distinct_nontrivial": ctx.counter("nontrivial"),
-        "rule": format!("all cases distinct; non-trivial = the input carries (part of) a macro envelope. Oracle: first codeword is 236/237 iff macros on, no FNC1, \
+        "rule": format!("all cases distinct; non-trivial = the input carries (part of) a macro envelope. Also: for three lists x two mode sets x macros x FNC1 x ten messages all 24 orders of the four builder setters give the same symbol and codewords. Oracle: first codeword is 236/237 iff macros on, no FNC1, \
 05/06 header and RS EOT trailer; body by reference decoder R5; decode_data == input. Sweep: {}", gen::describe_parts(&parts)),
         "exhaustive": true,
     });
@@ -167,6 +197,9 @@ pub fn run(ctx: &Ctx) -> i32 {
 }
 
 pub fn replay(case: &Value) -> Result<(), String> {
+    if case["kind"] == "builder" {
+        return super::c12::replay(case);
+    }
     let (cfg, input) = Cfg::from_json(case);
     eval(&cfg, &input, &mut Stats::default())
 }
